@@ -1607,3 +1607,66 @@ Proof.
     destruct (later_requests cfg Wc (rs2 :: t2) st1 R1 (U1 Fu1) Ft Fu2) as (st' & ws & F2 & Q2 & P2 & _).
     exists (w :: ws). rewrite F2, Q2, Q1. split; [reflexivity|constructor; assumption].
 Qed.
+
+(* ===================================================================================== *)
+(* G. non-vacuity and refutations, by evaluation (statements repeated in Props/C02.v)      *)
+
+Lemma nonvacuous :
+  forallb (fun cr => wf_request (snd cr) && wf_cfg (fst cr) && auth_passes (fst cr) (snd cr))
+          [(cfg_auth, ex_cl); (cfg_plain, ex_chunked); (cfg_plain, ex_empty_chunked); (cfg_plain, ex_upgrade)] = true /\
+  forallb (fun cr =>
+             match forward (fst cr) [render_request (snd cr)],
+                   forward (fst cr) (map (fun x => [x]) (render_request (snd cr))) with
+             | Some [w], Some [w'] => bytes_eqb w w' && option_eqb fwd_eqb (ref_parse_request w) (Some (expected_fwd (fst cr) (snd cr)))
+             | _, _ => false
+             end)
+          [(cfg_auth, ex_cl); (cfg_plain, ex_chunked); (cfg_plain, ex_empty_chunked); (cfg_plain, ex_upgrade)] = true /\
+  expected_fwd cfg_auth ex_cl =
+    {| f_method := bs "POST"; f_target := bs "/a/b?x=1"; f_version := bs "HTTP/1.1";
+       f_headers := [(bs "hOsT", bs "example.com:8080"); (bs "Via", bs "1.0 fred, 1.1 proxy.py v2.4");
+                     (bs "content-LENGTH", bs "5"); (bs "Accept", bs "*/*")];
+       f_body := bs "hello" |} /\
+  expected_fwd cfg_plain ex_chunked =
+    {| f_method := bs "PUT"; f_target := bs "/up"; f_version := bs "HTTP/1.1";
+       f_headers := [(bs "Host", bs "[::1]"); (bs "Transfer-Encoding", bs "Chunked"); (bs "Expect", bs "100-continue");
+                     (bs "Via", via24)];
+       f_body := bs "hello0123456789 chunked!!!" |} /\
+  (* two requests on one connection, the second one an upgrade request cut after its Upgrade line *)
+  (let raw2 := render_request ex_upgrade in
+   match forward cfg_plain [render_request ex_empty_chunked; firstn 70 raw2; skipn 70 raw2] with
+   | Some [w1; w2] => option_eqb fwd_eqb (ref_parse_request w2) (Some (expected_fwd cfg_plain ex_upgrade))
+   | _ => false
+   end = true).
+Proof. vm_compute. repeat split. Qed.
+
+Lemma via_overwrite_refuted :
+  exists cfg r w e, wf_request r = true /\ auth_passes cfg r = true /\
+    forward (as_found_via cfg) [render_request r] = Some [w] /\ ref_parse_request w = Some e /\
+    fwd_eqb e (expected_fwd cfg r) = false /\
+    get_ci L_VIA (f_headers e) = Some via24 /\
+    get_ci L_VIA (f_headers (expected_fwd cfg r)) = Some (bs "1.0 fred, " ++ via24).
+Proof.
+  exists cfg_auth, ex_cl. eexists. eexists. vm_compute. repeat split.
+Qed.
+
+Lemma upgrade_in_progress_refuted :
+  exists cfg r1 r2 a b w1 w2,
+    wf_request r1 = true /\ wf_request r2 = true /\ is_upgrade_request r1 = false /\
+    a ++ b = render_request r2 /\ a <> [] /\ b <> [] /\
+    forward (as_found_upgrade cfg) [render_request r1; a; b] = Some [w1; w2] /\
+    w2 = b /\ ref_parse_request w2 = None /\
+    (* while unsegmented it is forwarded properly by the same code *)
+    (exists w2', forward (as_found_upgrade cfg) [render_request r1; render_request r2] = Some [w1; w2'] /\
+                 ref_parse_request w2' = Some (expected_fwd cfg r2)).
+Proof.
+  exists cfg_plain, ex_empty_chunked, ex_upgrade, (firstn 70 (render_request ex_upgrade)), (skipn 70 (render_request ex_upgrade)).
+  eexists. eexists. vm_compute. repeat split; try discriminate. eexists. split; reflexivity.
+Qed.
+
+Lemma te_list_refuted :
+  exists w st, feed cfg_plain true init_state [te_list_raw] = Done false st /\ upstream_queue st = [w] /\
+    w = bs "POST / HTTP/1.1" ++ CRLF ++ bs "Host: h.example" ++ CRLF ++ bs "Transfer-Encoding: gzip, chunked" ++ CRLF ++
+        bs "Via: " ++ via24 ++ CRLF ++ CRLF /\
+    buffer (h_request st) = Some (bs "3" ++ CRLF ++ bs "abc" ++ CRLF ++ bs "0" ++ CRLF ++ CRLF) /\
+    ref_parse_request w = None.
+Proof. eexists. eexists. vm_compute. repeat split. Qed.
